@@ -82,13 +82,24 @@ def lagr(draw):
     return p
 
 
-def tokens(p):
-    t = ["mssm"]
+def set_tokens(p):
+    t = []
     for k in ("g1", "g2", "g3", "vd", "vu", "Mu", "MassB", "MassWB", "MassG", "BMu", "mHd2", "mHu2"):
         t += ["set", k, p[k]]
     for k in ("mq2", "ml2", "md2", "mu2", "me2", "Yd", "Ye", "Yu", "TYd", "TYe", "TYu"):
         for i in range(3):
             t += ["set", k, i, i, p[k][i]]
+    return t
+
+
+def tokens(p, before=None):
+    t = ["mssm"]
+    if before is not None:
+        # the object has already served another parameter set (spectrum, tachyon list): nothing of it may survive
+        # (the list of problems is the caller's to clear, as MSSMNoFV_onshell::calculate_masses() does before it
+        # calls calculate_DRbar_masses(); the low-level routine only ever adds to it)
+        t += set_tokens(before) + ["calc_drbar", "clear_problems"]
+    t += set_tokens(p)
     t += ["dump", "params", "pre.", "calc_drbar", "dump", "params", "-", "dump", "drbar", "-", "dump", "problems", "-"]
     return t
 
@@ -162,7 +173,9 @@ def check_unitary(Z, name, out):
 def prop(case):
     mp.mp.dps = 30
     p = case["p"]
-    r = vx.shared().call(*tokens(p))
+    if case.get("before") is not None:
+        label("object-reused")
+    r = vx.shared().call(*tokens(p, case.get("before")))
     if isinstance(r, (vx.Died, vx.Err)):
         return Fail("executor failure", result=repr(r))
     if "stopped" in r:
@@ -367,9 +380,17 @@ def nontrivial(case):
             or p["BMu"] <= 0)
 
 
+@st.composite
+def spectrum_case(draw):
+    c = {"p": draw(lagr())}
+    if draw(st.integers(0, 3)) == 0:
+        c["before"] = draw(lagr())
+    return c
+
+
 def subchecks(ctx):
     return [
-        Sub("spectrum", lagr().map(lambda p: {"p": p}), prop, {"quick": 1000, "thorough": 8000},
+        Sub("spectrum", spectrum_case(), prop, {"quick": 1000, "thorough": 8000},
             nontrivial=nontrivial,
             classes=lambda c: ["mode:" + c["p"]["mode"], "gens:" + c["p"]["gmode"]],
             rule="Lagrangian parameter set; 17 sectors reconstructed against independently written mass matrices"),
